@@ -58,6 +58,14 @@ def make_state(kind, nv, nh, na, seed):
     return st
 
 
+def _named(obs, name):
+    obs.name = name          # names are the user's to set
+    return obs
+
+
+N_LEAFSETS = 5
+
+
 def leaf_sets(names):
     """Assignments of built-in observables to the leaf names of the specification."""
     from qucumber.observables import SigmaZ, SigmaX, SigmaY, NeighbourInteraction, SWAP
@@ -65,6 +73,9 @@ def leaf_sets(names):
         lambda: dict(A=SigmaZ(), B=SigmaX(), C=NeighbourInteraction(c=1), D=SWAP(A=[0])),
         lambda: dict(A=SigmaX(), B=NeighbourInteraction(periodic_bcs=True, c=1), C=SigmaY(), D=SWAP(A=[0, 1])),
         lambda: dict(A=NeighbourInteraction(c=1), B=SigmaZ(absolute=True), C=SigmaX(absolute=True), D=SWAP(A=[1])),
+        # different observables that print alike: a name does not identify an observable
+        lambda: dict(A=SigmaZ(), B=SigmaZ(absolute=True), C=SWAP(A=[0]), D=SWAP(A=[0, 1])),
+        lambda: dict(A=_named(SigmaX(), "Q"), B=_named(SigmaY(), "Q"), C=SigmaY(absolute=True), D=SigmaY()),
     ]
     return [{n: d[n] for n in names} for d in (f() for f in base)]
 
@@ -81,7 +92,7 @@ def build_fixture(fid, desc):
 def make_fixtures(seed, names, nvs, per_kind):
     rng = random.Random(seed)
     fx = []
-    for kind in ("positive", "complex", "density"):
+    for ki, kind in enumerate(("positive", "complex", "density")):
         for j in range(per_kind):
             nv = nvs[j % len(nvs)]
             nh = rng.randint(1, 3)
@@ -94,7 +105,7 @@ def make_fixtures(seed, names, nvs, per_kind):
                 allb = torch.tensor([[(i >> k) & 1 for k in range(nv)] for i in range(2 ** nv)], dtype=torch.double)
                 batch = allb[:8].clone()
             fx.append(build_fixture(len(fx), dict(kind=kind, nv=nv, nh=nh, na=na, seed=s, batch=batch.tolist(),
-                                                  leafset=j % 3, names=list(names))))
+                                                  leafset=(j + ki * per_kind) % N_LEAFSETS, names=list(names))))
     return fx
 
 
